@@ -6,7 +6,7 @@
        func fd(val k) is if k = 0 then return 7 else return fd(k - 1)
        proc cd(val n, array b) is var t;
        { t := n + 48; put(t, 0); g := g + n; b[n] := t; if n = 0 then skip else cd(n - 1, b) }
-       proc main() is { g := 0; cd(3, a); g := fd(g); g := g + a[2]; ch := get(0); put(ch, 0) }
+       proc main() is { g := 0; cd(3, a); g := fd(g) + g; g := g + a[2]; ch := get(0) + 1; put(ch, 0) }
    (the global array a is passed by address to the array formal b, which cd assigns through and hands on to its
    recursive call; at the end one byte is read from the console and echoed).  Its image is laid out here as xcmp does (BR _start; DATA 199993; g; a's word; _start: LDAP _exit; BR main; _exit: ..; the
    procedures), from the model's LOWERED code (prologue ++ cs body ++ exit label ++ epilogue, before the
@@ -31,9 +31,9 @@ Definition demo_src : program :=
                                  SAssignSub "b" (EVar "n") (EVar "t");
                                  SIf (EBin Eq (EVar "n") (ENum 0)) SSkip (SCall "cd" [EBin Minus (EVar "n") (ENum 1); EVar "b"])] |};
                 {| is_func := false; pname := "main"; formals := []; locals := [];
-                   body := SSeq [SAssign "g" (ENum 0); SCall "cd" [ENum 3; EVar "a"]; SAssign "g" (ECall "fd" [EVar "g"]);
+                   body := SSeq [SAssign "g" (ENum 0); SCall "cd" [ENum 3; EVar "a"]; SAssign "g" (EBin Plus (ECall "fd" [EVar "g"]) (EVar "g"));
                    SAssign "g" (EBin Plus (EVar "g") (ESub "a" (ENum 2)));
-                   SAssign "ch" (ECall "get" [ENum 0]); SCall "put" [EVar "ch"; ENum 0]] |} ] |}.
+                   SAssign "ch" (EBin Plus (ECall "get" [ENum 0]) (ENum 1)); SCall "put" [EVar "ch"; ENum 0]] |} ] |}.
 
 Definition p_fd : proc :=
   {| is_func := true; pname := "fd"; formals := [FVal "k"]; locals := [];
@@ -45,9 +45,9 @@ Definition p_cd : proc :=
                    SIf (EBin Eq (EVar "n") (ENum 0)) SSkip (SCall "cd" [EBin Minus (EVar "n") (ENum 1); EVar "b"])] |}.
 Definition p_main : proc :=
   {| is_func := false; pname := "main"; formals := []; locals := [];
-     body := SSeq [SAssign "g" (ENum 0); SCall "cd" [ENum 3; EVar "a"]; SAssign "g" (ECall "fd" [EVar "g"]);
+     body := SSeq [SAssign "g" (ENum 0); SCall "cd" [ENum 3; EVar "a"]; SAssign "g" (EBin Plus (ECall "fd" [EVar "g"]) (EVar "g"));
                    SAssign "g" (EBin Plus (EVar "g") (ESub "a" (ENum 2)));
-                   SAssign "ch" (ESys 2 [ENum 0]); SSys 1 [EVar "ch"; ENum 0]] |}.
+                   SAssign "ch" (EBin Plus (ESys 2 [ENum 0]) (ENum 1)); SSys 1 [EVar "ch"; ENum 0]] |}.
 Definition demo : program :=
   {| globals := [DVal "put" (ENum 1); DVal "get" (ENum 2); DVar "g"; DArray "a" (ENum 4); DVar "ch"]; procs := [p_fd; p_cd; p_main] |}.
 
@@ -55,11 +55,11 @@ Definition demo : program :=
 Lemma demo_front : front demo_src = COk demo.
 Proof. vm_compute. reflexivity. Qed.
 Lemma demo_spec : run_fuel 100 1000 10 demo [66; 67] =
-  Behaviour {| outputs := [(0, 51); (0, 50); (0, 49); (0, 48); (0, 66)]; consumed := 1; exit_value := 0 |}.
+  Behaviour {| outputs := [(0, 51); (0, 50); (0, 49); (0, 48); (0, 67)]; consumed := 1; exit_value := 0 |}.
 Proof. vm_compute. reflexivity. Qed.
-(* at the end of the input get answers 255 and consumes nothing *)
+(* at the end of the input get answers 255 and consumes nothing (so ch = 256 and put writes the byte 0) *)
 Lemma demo_spec_eof : run_fuel 100 1000 10 demo [] =
-  Behaviour {| outputs := [(0, 51); (0, 50); (0, 49); (0, 48); (0, 255)]; consumed := 0; exit_value := 0 |}.
+  Behaviour {| outputs := [(0, 51); (0, 50); (0, 49); (0, 48); (0, 0)]; consumed := 0; exit_value := 0 |}.
 Proof. vm_compute. reflexivity. Qed.
 
 Definition demo_ge : genv := {| g_vals := [("get", 2); ("put", 1)]; g_procs := [p_fd; p_cd; p_main]; g_maxdepth := 10 |}.
@@ -102,9 +102,9 @@ proc cd(val n, array b) is
 proc main() is
 { g := 0;
   cd(3, a);
-  g := fd(g);
+  g := fd(g) + g;
   g := g + a[2];
-  ch := get(0);
+  ch := get(0) + 1;
   put(ch, 0)
 }
 X-SOURCE-END *)
@@ -119,9 +119,10 @@ Proof. vm_compute. reflexivity. Qed.
 Example demo_cproc_main : cproc demo_pinfo demo_gaddr demo_aaddr demo_pool p_main 5 4 = Some
   (* XCMP-LISTING main *)
   [LDBM 1; STAI 0; LDAC (-5); ADD; STAM 1; LDAC 0; STAM 2; LDAC 3; LDBM 1; STAI 1; LDAM 3; LDBM 1; STAI 2; LDAP 1; BR
-   100; LABEL 1; LDAM 2; LDBM 1; STAI 2; LDAP 2; BR 102; LABEL 2; LDAM 1; LDAI 1; STAM 2; LDAM 3; LDAI 2; LDBM 1; STAI
-   4; LDAM 2; LDBM 1; LDBI 4; ADD; STAM 2; LDAC 0; LDBM 1; STAI 2; LDAC 2; SVC; LDAM 1; LDAI 1; STAM 4; LDAM 4; LDBM
-   1; STAI 2; LDAC 0; LDBM 1; STAI 3; LDAC 1; SVC; LDAM 1; LDAI 1; LABEL 0; LDBM 1; LDAC 5; ADD; STAM 1; LDBI 5; BRB].
+   100; LABEL 1; LDAM 2; LDBM 1; STAI 2; LDAP 2; BR 102; LABEL 2; LDAM 1; LDAI 1; LDBM 2; ADD; STAM 2; LDAM 3; LDAI 2;
+   LDBM 1; STAI 4; LDAM 2; LDBM 1; LDBI 4; ADD; STAM 2; LDAC 0; LDBM 1; STAI 2; LDAC 2; SVC; LDAM 1; LDAI 1; LDBC 1;
+   ADD; STAM 4; LDAM 4; LDBM 1; STAI 2; LDAC 0; LDBM 1; STAI 3; LDAC 1; SVC; LDAM 1; LDAI 1; LABEL 0; LDBM 1; LDAC 5;
+   ADD; STAM 1; LDBI 5; BRB].
 Proof. vm_compute. reflexivity. Qed.
 Example demo_cproc_fd : cproc demo_pinfo demo_gaddr demo_aaddr demo_pool p_fd 3 3 = Some
   (* XCMP-LISTING fd *)
@@ -145,11 +146,11 @@ Definition demo_bytes : list Z :=
    144; 17; 132; 51; 209; 33; 115; 208; 17; 128; 255; 58; 209; 33; 1; 103; 227; 64; 209; 17; 133; 1; 101; 17; 130; 48;
    17; 131; 49; 211; 1; 97; 2; 17; 119; 209; 34; 1; 103; 17; 120; 209; 17; 132; 1; 101; 17; 116; 128; 1; 103; 162; 48;
    145; 49; 161; 157; 1; 103; 65; 210; 17; 129; 1; 104; 17; 130; 82; 252; 146; 17; 54; 209; 33; 118; 208; 17; 128;
-   255; 59; 209; 33; 48; 34; 51; 17; 129; 3; 17; 130; 82; 250; 155; 2; 17; 130; 82; 248; 146; 1; 97; 34; 3; 98; 17;
-   132; 2; 17; 116; 209; 34; 48; 17; 130; 50; 211; 1; 97; 36; 4; 17; 130; 48; 17; 131; 49; 211; 1; 97; 17; 53; 209;
-   33; 117; 208; 0; 0; 0].
+   255; 59; 209; 33; 48; 34; 51; 17; 129; 3; 17; 130; 82; 250; 155; 2; 17; 130; 82; 248; 146; 1; 97; 18; 209; 34; 3;
+   98; 17; 132; 2; 17; 116; 209; 34; 48; 17; 130; 50; 211; 1; 97; 65; 209; 36; 4; 17; 130; 48; 17; 131; 49; 211; 1;
+   97; 17; 53; 209; 33; 117; 208; 0; 0; 0].
 Definition demo_labs : list (label * Z) :=
-  [(0, 128); (1, 115); (2, 128); (3, 112); (4, 113); (5, 128); (20, 187); (21, 151); (22, 157); (40, 59); (41, 47);
+  [(0, 128); (1, 115); (2, 128); (3, 112); (4, 113); (5, 128); (20, 191); (21, 151); (22, 157); (40, 59); (41, 47);
    (42, 59); (43, 42); (44, 43); (45, 56); (100, 66); (101, 134); (102, 31)].
 Definition demo_label_names : list label := [0; 1; 2; 3; 4; 5; 20; 21; 22; 40; 41; 42; 43; 44; 45; 100; 101; 102].
 (* the assembler model lays the directives out as these bytes, with the labels there *)
@@ -162,18 +163,18 @@ Fixpoint lookup (l : label) (t : list (label * Z)) : Z :=
 Definition demo_lab (l : label) : Z := lookup l demo_labs.
 Definition demo_m0 : WMap.t := mem_of demo_bytes.
 Definition demo_img : WMap.t := bytes_map demo_bytes.
-Definition demo_P (a : Z) : Prop := 6 <= a < 49.      (* the code words *)
+Definition demo_P (a : Z) : Prop := 6 <= a < 50.      (* the code words *)
 Definition demo_stack_lo : Z := 1000.
 Definition demo_stack_hi : Z := 199996.   (* the root frame ends here; the array's cells follow *)
 Definition demo_maxframe : Z := 6.
 
 (* the image, run by the ISA from reset, shows the behaviour of the spec *)
 Lemma demo_image_runs : exists s, Isa.run 700 (boot (words_of_bytes demo_bytes)) {| console := [66; 67]; files := fun _ => [] |} [] =
-  ([Write 51 0; Write 50 0; Write 49 0; Write 48 0; Read 0 66; Write 66 0; Exit 0], {| console := [67]; files := fun _ => [] |}, s, Exited 0).
+  ([Write 51 0; Write 50 0; Write 49 0; Write 48 0; Read 0 66; Write 67 0; Exit 0], {| console := [67]; files := fun _ => [] |}, s, Exited 0).
 Proof. vm_compute. eexists. reflexivity. Qed.
 
 (* ---- the hypotheses of XCodegenCall.Prog *)
-Lemma demo_holds lo n : bytes_ok demo_m0 demo_img lo n = true -> 0 <= lo -> 24 <= lo -> lo + Z.of_nat n <= 196 ->
+Lemma demo_holds lo n : bytes_ok demo_m0 demo_img lo n = true -> 0 <= lo -> 24 <= lo -> lo + Z.of_nat n <= 200 ->
   forall m, C demo_P demo_m0 m -> holds m demo_img lo (lo + Z.of_nat n).
 Proof.
   intros Hb H0 Hlo Hhi. apply bytes_ok_holds; [exact Hb | exact H0|].
@@ -195,11 +196,11 @@ Proof.
   change 134 with (66 + Z.of_nat 68). apply demo_holds; [vm_compute; reflexivity | lia | lia | cbn; lia].
 Qed.
 Lemma demo_code_main : exists bc n', body_code p_main L_main = Some (bc, n') /\
-  code_at (C demo_P demo_m0) demo_lab 134 (pro 5 ++ bc ++ epi 20 5) 193.
+  code_at (C demo_P demo_m0) demo_lab 134 (pro 5 ++ bc ++ epi 20 5) 197.
 Proof.
   eexists. eexists. split; [vm_compute; reflexivity|].
-  apply (code_chk_sound (C demo_P demo_m0) _ demo_lab demo_img 134 193); [vm_compute; reflexivity | lia | unfold W; lia|].
-  change 193 with (134 + Z.of_nat 59). apply demo_holds; [vm_compute; reflexivity | lia | lia | cbn; lia].
+  apply (code_chk_sound (C demo_P demo_m0) _ demo_lab demo_img 134 197); [vm_compute; reflexivity | lia | unfold W; lia|].
+  change 197 with (134 + Z.of_nat 63). apply demo_holds; [vm_compute; reflexivity | lia | lia | cbn; lia].
 Qed.
 
 Lemma demo_simple_cd : simple_proc demo_gaddr demo_aaddr p_cd ["n"; "b"] ["t"].
@@ -230,7 +231,7 @@ Proof.
     + apply String.eqb_eq in E2. subst p. inversion Hp; subst pi. cbn [pf_isfunc pf_entry].
       split; [vm_compute; discriminate|].
       destruct demo_code_main as (bc & n' & Hb & Hc).
-      exists p_main, [], [], L_main, bc, n', 193. split; [reflexivity|]. split; [reflexivity|].
+      exists p_main, [], [], L_main, bc, n', 197. split; [reflexivity|]. split; [reflexivity|].
       split; [exact demo_simple_main|]. split; [vm_compute; repeat split; discriminate|]. split; [exact Hb|]. split; [exact Hc | reflexivity].
     + apply String.eqb_eq in E3. subst p. inversion Hp; subst pi. cbn [pf_isfunc pf_entry].
       split; [vm_compute; discriminate|].
@@ -310,27 +311,28 @@ Proof.
   - unfold Dq_of, demo_stack_lo, demo_maxframe, demo_sp. cbn. lia.
 Qed.
 
-(* main's body sits at bytes [140, 187) of the image *)
-Lemma demo_body_main : exists bc n', body_code p_main L_main = Some (bc, n') /\ code_at (C demo_P demo_m0) demo_lab 140 bc 187.
+(* main's body sits at bytes [140, 191) of the image *)
+Lemma demo_body_main : exists bc n', body_code p_main L_main = Some (bc, n') /\ code_at (C demo_P demo_m0) demo_lab 140 bc 191.
 Proof.
   eexists. eexists. split; [vm_compute; reflexivity|].
-  apply (code_chk_sound (C demo_P demo_m0) _ demo_lab demo_img 140 187); [vm_compute; reflexivity | lia | unfold W; lia|].
-  change 187 with (140 + Z.of_nat 47). apply demo_holds; [vm_compute; reflexivity | lia | lia | cbn; lia].
+  apply (code_chk_sound (C demo_P demo_m0) _ demo_lab demo_img 140 191); [vm_compute; reflexivity | lia | unfold W; lia|].
+  change 191 with (140 + Z.of_nat 51). apply demo_holds; [vm_compute; reflexivity | lia | lia | cbn; lia].
 Qed.
 
 (* The theorem applied: from main's frame (stack pointer word = 199988, g and ch not yet assigned, nothing in the
    array, the console holding the bytes 66 67), the ISA runs the code of main's body
-   `g := 0; cd(3, a); g := fd(g); g := g + a[2]; ch := get(0); put(ch, 0)` -- four activations of the procedure cd, each
+   `g := 0; cd(3, a); g := fd(g) + g; g := g + a[2]; ch := get(0) + 1; put(ch, 0)` -- four activations of the procedure cd, each
    with prologue, output, an assignment to an element of the global array through the array formal b (whose frame word
    holds the address of a's cells), recursive call handing b on, and epilogue, then seven activations of the function
    fd, each returning its result through the caller's outgoing word, then a read of the array, then the system call
    get, which takes one byte from the console, and put, which echoes it -- to the end of that code; the outputs among
-   its events are exactly the bytes "3210B" on stream 0, the console is left with the byte 67; the stack pointer word
-   is 199988 again, g's word holds 57 (= fd(6) + a[2] = 7 + 50), ch's word the byte 66 and the cell of a[2] holds 50. *)
+   its events are exactly the bytes "3210C" on stream 0, the console is left with the byte 67; the stack pointer word
+   is 199988 again, g's word holds 63 (= fd(6) + 6 + a[2] = 7 + 6 + 50: the call is the left operand of +, the right one
+   the variable g), ch's word 67 (the byte read + 1: get as a left operand) and the cell of a[2] holds 50. *)
 Theorem demo_main_body_runs : forall a b inp, console inp = [66; 67] -> exists evs a' b' m',
-  runs inp (mk 140 a b 0 demo_m) evs {| console := [67]; files := files inp |} (mk 187 a' b' 0 m') /\
-  writes evs = [(0, 51); (0, 50); (0, 49); (0, 48); (0, 66)] /\
-  rd m' 1 = 199988 /\ rd m' 2 = 57 /\ rd m' 4 = 66 /\ rd m' 199998 = 50.
+  runs inp (mk 140 a b 0 demo_m) evs {| console := [67]; files := files inp |} (mk 191 a' b' 0 m') /\
+  writes evs = [(0, 51); (0, 50); (0, 49); (0, 48); (0, 67)] /\
+  rd m' 1 = 199988 /\ rd m' 2 = 63 /\ rd m' 4 = 67 /\ rd m' 199998 = 50.
 Proof.
   intros a b inp Hcon.
   destruct demo_hyps as (H1 & H2 & H3 & H4 & H5 & H6 & H7 & H8 & H9 & H10 & H11).
@@ -338,8 +340,8 @@ Proof.
                 demo_stack_hi demo_maxframe H1 H2 H3 H4 H5 H6 H7 H8 H9 H10 H11 100%nat p_main [] [] L_main demo_sp demo_frame_main) as Hok.
   destruct demo_body_main as (bc & n' & Hb & Hc).
   assert (He : exists st', exec 100 demo_ge (body p_main) demo_st0 = Ret Normal st' /\
-                           out_rev st' = [(0, 66); (0, 48); (0, 49); (0, 50); (0, 51)] /\ input st' = [67] /\
-                           assoc "g" (gvars st') = Some (Vint 57) /\ assoc "ch" (gvars st') = Some (Vint 66) /\
+                           out_rev st' = [(0, 67); (0, 48); (0, 49); (0, 50); (0, 51)] /\ input st' = [67] /\
+                           assoc "g" (gvars st') = Some (Vint 63) /\ assoc "ch" (gvars st') = Some (Vint 67) /\
                            exists ar, assoc "a" (garrs st') = Some ar /\ PositiveMap.find (cell 2) (acells ar) = Some (Vint 50)).
   { vm_compute. eexists. split; [reflexivity|]. split; [reflexivity|]. split; [reflexivity|]. split; [reflexivity|]. split; [reflexivity|].
     eexists. split; reflexivity. }
@@ -348,7 +350,7 @@ Proof.
   destruct (stmt_normal demo_pinfo (Fr_of demo_stack_lo demo_sp) (Dq_of demo_ge demo_stack_lo demo_maxframe demo_sp)
               (frame_venv demo_gaddr p_main (pl_size L_main)) (frame_aenv demo_aaddr p_main (pl_size L_main)) (garr_of demo_aaddr) demo_abase demo_alen demo_pool
               (pl_size L_main) (pl_nslots L_main) (first_temp p_main) (pl_og L_main) (pl_exit L_main) demo_ge demo_P demo_m0 demo_lab demo_sp
-              100%nat Hok (body p_main) (pl_n0 L_main) bc n' demo_st0 st' Hb He demo_m 140 187 a b inp
+              100%nat Hok (body p_main) (pl_n0 L_main) bc n' demo_st0 st' Hb He demo_m 140 191 a b inp
               demo_rel Hcon Hc ltac:(lia) ltac:(unfold W; lia) Hx)
     as (outs & a' & b' & m' & R & HR' & Hpost & _).
   exists outs, a', b', m'.
@@ -378,8 +380,8 @@ Example demo_model_image_opt : model_compile demo_frames true demo = Some
   [38625; 199993; 0; 199996; 0; 0; 295167570; 299074096; 3510501248; 815949089; 933441937; 1694604445; 2182206017;
    26803794; 2215743585; 1931596083; 4286583248; 1730269498; 298926307; 813830533; 3543237393; 285368577; 19059063;
    3514306919; 1694598161; 25195537; 2435883623; 27107633; 298991975; 292028801; 2516341378; 567358993; 2148651126;
-   567360511; 288563760; 2182153089; 43973202; 4166156817; 576782742; 2215731715; 3514044674; 2182164514; 1627509554;
-   2182153252; 830673200; 291570131; 1965150517; 208].
+   567360511; 288563760; 2182153089; 43973202; 4166156817; 308347286; 1644372689; 285377553; 807588212; 3543302673;
+   3510722817; 2182153252; 830673200; 291570131; 1965150517; 208].
 Proof. vm_compute. reflexivity. Qed.
 
 (* opt = false: the validated image of the lowered code, the one program_correct speaks of *)
@@ -387,23 +389,23 @@ Definition demo_image : list Z :=
   [38625; 199993; 0; 199996; 0; 0; 295429714; 299074096; 3510501248; 2724528417; 2737934640; 27041079; 298991973;
    2550026882; 294674689; 567358340; 2148651123; 567360255; 1088644865; 25498065; 813830501; 3543237393; 285368577;
    19059063; 3514306919; 1694598161; 25195537; 2435883623; 27107633; 298991975; 292028801; 2466009730; 567358993;
-   2148651126; 567360511; 288563760; 2182153089; 43776594; 4166156817; 576782738; 2215731715; 3514044674; 2182164514;
-   1627509554; 2182153252; 830673200; 291570131; 1965150517; 208].
+   2148651126; 567360511; 288563760; 2182153089; 43776594; 4166156817; 308347282; 1644372689; 285377553; 807588212;
+   3543302673; 3510722817; 2182153252; 830673200; 291570131; 1965150517; 208].
 Lemma demo_model_image : model_compile demo_frames false demo = Some demo_image.
 Proof. vm_compute. reflexivity. Qed.
 
 (* the end-to-end theorem applied to the demo: its image shows the spec's behaviour -- from program_correct, not by
-   running the ISA.  With the console bytes 66 67 it writes "3210B" and has consumed one byte; with an empty console
-   get answers 255, so it writes "3210" and the byte 255, and has consumed nothing *)
+   running the ISA.  With the console bytes 66 67 it writes "3210C" and has consumed one byte; with an empty console
+   get answers 255, so it writes "3210" and the byte 0 (= 256 mod 256), and has consumed nothing *)
 Theorem demo_end_to_end : exists n,
-  isa_shows demo_image [66; 67] n {| outputs := [(0, 51); (0, 50); (0, 49); (0, 48); (0, 66)]; consumed := 1; exit_value := 0 |}.
+  isa_shows demo_image [66; 67] n {| outputs := [(0, 51); (0, 50); (0, 49); (0, 48); (0, 67)]; consumed := 1; exit_value := 0 |}.
 Proof.
   apply (program_correct demo_frames demo [66; 67] _ demo_image); [|exact demo_model_image].
   apply (run_of_smaller_fuel 100); [unfold default_fuel; apply Nat2Z.inj_le; rewrite Z2Nat.id; lia|].
   vm_compute. reflexivity.
 Qed.
 Theorem demo_end_to_end_eof : exists n,
-  isa_shows demo_image [] n {| outputs := [(0, 51); (0, 50); (0, 49); (0, 48); (0, 255)]; consumed := 0; exit_value := 0 |}.
+  isa_shows demo_image [] n {| outputs := [(0, 51); (0, 50); (0, 49); (0, 48); (0, 0)]; consumed := 0; exit_value := 0 |}.
 Proof.
   apply (program_correct demo_frames demo [] _ demo_image); [|exact demo_model_image].
   apply (run_of_smaller_fuel 100); [unfold default_fuel; apply Nat2Z.inj_le; rewrite Z2Nat.id; lia|].
